@@ -236,3 +236,7 @@ func (c *Conn) RemoteAddr() net.Addr               { return c.remote }
 func (c *Conn) SetDeadline(t time.Time) error      { return nil }
 func (c *Conn) SetReadDeadline(t time.Time) error  { return nil }
 func (c *Conn) SetWriteDeadline(t time.Time) error { return nil }
+
+// Drop discards the undelivered bytes of the direction (an on-path attacker
+// that replaces the stream).
+func (d *Dir) Drop() { d.buf = nil }
